@@ -31,7 +31,14 @@ type state struct {
 	autoescape ast.AutoescapeType // escaping mode
 	ij         data.Map           // injected data available to all templates.
 	msgs       soymsg.Bundle      // replacement text for {msg} tags
+	depth      int                // how many {call}s deep is this template being rendered?
 }
+
+// maxCallDepth bounds the nesting of {call}s at run time. Every level costs
+// some kilobytes of stack, and a stack that outgrows its limit kills the
+// process: a recursion that the data drives too deep (or that never ends) is
+// refused with an error instead.
+const maxCallDepth = 2000
 
 // at marks the state to be on node n, for error reporting.
 func (s *state) at(node ast.Node) {
@@ -556,8 +563,13 @@ func (s *state) evalCall(node *ast.CallNode) {
 	// called template is reported at this {call}.
 	s.at(node)
 
+	if s.depth >= maxCallDepth {
+		s.errorf("templates call each other more than %d levels deep (calling %s)", maxCallDepth, node.Name)
+	}
+
 	callData.enter()
 	state := &state{
+		depth:      s.depth + 1,
 		tmpl:       calledTmpl,
 		registry:   s.registry,
 		namespace:  calledTmpl.Namespace.Name,
